@@ -317,19 +317,25 @@ type typeGuesser struct {
 }
 
 func (g *typeGuesser) Guess() (SchemaType, error) {
-	m := map[SchemaType]func() bool{
-		SchemaTypeString:  g.isString,
-		SchemaTypeInteger: g.isInteger,
-		SchemaTypeFloat:   g.isFloat,
-		SchemaTypeBoolean: g.isBoolean,
-		SchemaTypeObject:  g.isObject,
-		SchemaTypeArray:   g.isArray,
-		SchemaTypeNull:    g.isNull,
+	// The predicates overlap (a quoted "1.5" looks like a float to isFloat, which
+	// only looks for a dot), so they are tried in a fixed order, the string first.
+	// Ranging over a map of them made the answer depend on map iteration order.
+	tests := []struct {
+		t  SchemaType
+		fn func() bool
+	}{
+		{SchemaTypeString, g.isString},
+		{SchemaTypeInteger, g.isInteger},
+		{SchemaTypeFloat, g.isFloat},
+		{SchemaTypeBoolean, g.isBoolean},
+		{SchemaTypeObject, g.isObject},
+		{SchemaTypeArray, g.isArray},
+		{SchemaTypeNull, g.isNull},
 	}
 
-	for t, fn := range m {
-		if fn() {
-			return t, nil
+	for _, tt := range tests {
+		if tt.fn() {
+			return tt.t, nil
 		}
 	}
 	return SchemaTypeUndefined, ErrUnknownSchemaType
